@@ -11,7 +11,7 @@
    common representation are representable (otherwise the C++ has signed overflow = UB).
    All statements hold for ALL periods and ALL counts in that domain. *)
 From Tetl Require Import Lib.Base C12.Model C12.Spec C12.ProofsArith C12.ProofsCast C12.ProofsCommon
-  C12.ProofsRound C12.ProofsSpec C12.ProofsScalar.
+  C12.ProofsRound C12.ProofsSpec C12.ProofsScalar C12.ProofsAlgebra C12.ProofsTotal.
 Local Open Scope Z_scope.
 
 (** * ratio, gcd, lcm *)
@@ -232,6 +232,72 @@ Theorem C12_spec_div_mod : forall n1 d1 n2 d2, period_ok n1 d1 = true -> period_
   /\ Z.abs (mod_spec n1 d1 n2 d2 c1 c2) < Z.abs (in_common n2 d2 n1 d1 c2).
 Proof. exact div_mod_spec_char. Qed.
 Print Assumptions C12_spec_div_mod.
+
+(** * laws relating the four conversions (any positive periods, every count) *)
+Theorem C12_conversion_laws : forall n1 d1 n2 d2, 0 < n1 -> 0 < d1 -> 0 < n2 -> 0 < d2 ->
+  forall c,
+  let tr := cast_spec n1 d1 n2 d2 in let fl := floor_spec n1 d1 n2 d2 in
+  let ce := ceil_spec n1 d1 n2 d2 in let ro := round_spec n1 d1 n2 d2 in
+  (* order: floor <= trunc, round <= ceil <= floor + 1; trunc is floor for c >= 0 and ceil for c < 0 *)
+  (fl c <= tr c <= ce c /\ fl c <= ro c <= ce c /\ ce c <= fl c + 1
+   /\ tr c = (if 0 <=? c then fl c else ce c))
+  (* exactness: floor = ceil iff the quotient is a whole number, and then all four agree exactly *)
+  /\ ((c * n1 * d2) mod (d1 * n2) = 0 <-> fl c = ce c)
+  /\ ((c * n1 * d2) mod (d1 * n2) = 0 ->
+        tr c = fl c /\ ce c = fl c /\ ro c = fl c /\ fl c * (d1 * n2) = c * n1 * d2)
+  (* negation: trunc and round are odd functions, floor and ceil are dual *)
+  /\ (tr (- c) = - tr c /\ fl (- c) = - ce c /\ ce (- c) = - fl c /\ ro (- c) = - ro c)
+  (* monotone *)
+  /\ (forall c', c <= c' -> tr c <= tr c' /\ fl c <= fl c' /\ ce c <= ce c' /\ ro c <= ro c').
+Proof.
+  intros n1 d1 n2 d2 Hn1 Hd1 Hn2 Hd2 c. cbv zeta.
+  split; [apply spec_order; assumption|]. split; [apply spec_exact; assumption|].
+  split; [apply spec_exact_all; assumption|]. split; [apply spec_neg; assumption|].
+  intros c' Hc. apply spec_mono; assumption.
+Qed.
+Print Assumptions C12_conversion_laws.
+
+(* a conversion to a period that divides the source period (e.g. hours -> seconds) is exact and
+   is undone by each of the four conversions back; on the model: cast there and back is the identity *)
+Theorem C12_finer_roundtrip : forall w1 n1 d1 w2 n2 d2 c,
+  rep_ok w1 = true -> rep_ok w2 = true -> period_ok n1 d1 = true -> period_ok n2 d2 = true ->
+  (n1 * d2) mod (d1 * n2) = 0 ->
+  let t := cast_spec n1 d1 n2 d2 c in
+  (t * (d1 * n2) = c * n1 * d2
+   /\ cast_spec n2 d2 n1 d1 t = c /\ floor_spec n2 d2 n1 d1 t = c
+   /\ ceil_spec n2 d2 n1 d1 t = c /\ round_spec n2 d2 n1 d1 t = c)
+  /\ (cast_ok w1 n1 d1 w2 n2 d2 c = true -> cast_ok w2 n2 d2 w1 n1 d1 t = true ->
+      duration_cast_m (Dur w1 n1 d1) (Dur w2 n2 d2) c = Val t
+      /\ duration_cast_m (Dur w2 n2 d2) (Dur w1 n1 d1) t = Val c).
+Proof.
+  intros w1 n1 d1 w2 n2 d2 c Hw1 Hw2 Hp1 Hp2 Hm. cbv zeta.
+  pose proof (proj1 (period_ok_iff _ _) Hp1) as (Hn1 & Hd1 & _).
+  pose proof (proj1 (period_ok_iff _ _) Hp2) as (Hn2 & Hd2 & _).
+  pose proof (spec_roundtrip n1 d1 n2 d2 ltac:(lia) ltac:(lia) ltac:(lia) ltac:(lia) c Hm) as R.
+  cbv zeta in R. split; [exact R|]. intros H1 H2. split.
+  - apply duration_cast_spec; assumption.
+  - rewrite duration_cast_spec by assumption. f_equal. apply R.
+Qed.
+Print Assumptions C12_finer_roundtrip.
+
+(* complete characterisation of duration_cast on the whole source range: undefined behaviour
+   (signed overflow in intmax_t) exactly when count * numerator of the reduced factor does not fit,
+   otherwise the truncated quotient converted (modulo 2^w2) to the target representation; never UB
+   when the reduced factor is 1/k (e.g. milliseconds -> seconds, seconds -> hours) *)
+Theorem C12_duration_cast_total : forall w1 n1 d1 w2 n2 d2 c,
+  rep_ok w1 = true -> period_ok n1 d1 = true -> period_ok n2 d2 = true ->
+  factor_num n1 d1 n2 d2 <= max64 -> factor_den n1 d1 n2 d2 <= max64 -> fits w1 c = true ->
+  duration_cast_m (Dur w1 n1 d1) (Dur w2 n2 d2) c
+  = (if fits 64 (c * factor_num n1 d1 n2 d2)
+     then Val (wrap_rep w2 (cast_spec n1 d1 n2 d2 c)) else Ub SignedOverflow)
+  /\ (factor_num n1 d1 n2 d2 = 1 ->
+      duration_cast_m (Dur w1 n1 d1) (Dur w2 n2 d2) c = Val (wrap_rep w2 (cast_spec n1 d1 n2 d2 c))).
+Proof.
+  intros w1 n1 d1 w2 n2 d2 c Hw1 Hp1 Hp2 Ha Hb Hc. split.
+  - apply duration_cast_total; assumption.
+  - intros E. apply duration_cast_coarser_never_ub; assumption.
+Qed.
+Print Assumptions C12_duration_cast_total.
 
 (** * the named duration types *)
 Theorem C12_typedefs :
